@@ -45,42 +45,42 @@ Qed.
 Lemma falsy_only_null_false : forall v, truthy v = false <-> (v = VNull \/ v = VBool false).
 Proof.
   intro v; split.
-  - destruct v as [|[]| | | | | | | |]; cbn; intro H; try discriminate; auto.
+  - destruct v as [|[]| | | | | | | | |]; cbn; intro H; try discriminate; auto.
   - intros [->| ->]; reflexivity.
 Qed.
 
-Lemma and_short_circuits : forall f cenv e s a b v e1 s1,
-  eval f cenv e s a = (RVal v, e1, s1) -> truthy v = false ->
-  eval (S f) cenv e s (EAnd a b) = (RVal v, e1, s1).
+Lemma and_short_circuits : forall f cenv yt e s a b v e1 s1,
+  eval f cenv yt e s a = (RVal v, e1, s1) -> truthy v = false ->
+  eval (S f) cenv yt e s (EAnd a b) = (RVal v, e1, s1).
 Proof. intros. cbn [eval]. rewrite H, H0. reflexivity. Qed.
 
-Lemma and_evaluates_rhs : forall f cenv e s a b v e1 s1,
-  eval f cenv e s a = (RVal v, e1, s1) -> truthy v = true ->
-  eval (S f) cenv e s (EAnd a b) = eval f cenv e1 s1 b.
+Lemma and_evaluates_rhs : forall f cenv yt e s a b v e1 s1,
+  eval f cenv yt e s a = (RVal v, e1, s1) -> truthy v = true ->
+  eval (S f) cenv yt e s (EAnd a b) = eval f cenv yt e1 s1 b.
 Proof. intros. cbn [eval]. rewrite H, H0. reflexivity. Qed.
 
-Lemma or_short_circuits : forall f cenv e s a b v e1 s1,
-  eval f cenv e s a = (RVal v, e1, s1) -> truthy v = true ->
-  eval (S f) cenv e s (EOr a b) = (RVal v, e1, s1).
+Lemma or_short_circuits : forall f cenv yt e s a b v e1 s1,
+  eval f cenv yt e s a = (RVal v, e1, s1) -> truthy v = true ->
+  eval (S f) cenv yt e s (EOr a b) = (RVal v, e1, s1).
 Proof. intros. cbn [eval]. rewrite H, H0. reflexivity. Qed.
 
-Lemma or_evaluates_rhs : forall f cenv e s a b v e1 s1,
-  eval f cenv e s a = (RVal v, e1, s1) -> truthy v = false ->
-  eval (S f) cenv e s (EOr a b) = eval f cenv e1 s1 b.
+Lemma or_evaluates_rhs : forall f cenv yt e s a b v e1 s1,
+  eval f cenv yt e s a = (RVal v, e1, s1) -> truthy v = false ->
+  eval (S f) cenv yt e s (EOr a b) = eval f cenv yt e1 s1 b.
 Proof. intros. cbn [eval]. rewrite H, H0. reflexivity. Qed.
 
 (* a comparison chain stops at the first false link: later operands are not evaluated *)
-Lemma chain_stops_at_false : forall f cenv e s a op b rest va e1 s1 vb e2 s2,
-  eval f cenv e s a = (RVal va, e1, s1) ->
-  eval f cenv e1 s1 b = (RVal vb, e2, s2) ->
+Lemma chain_stops_at_false : forall f cenv yt e s a op b rest va e1 s1 vb e2 s2,
+  eval f cenv yt e s a = (RVal va, e1, s1) ->
+  eval f cenv yt e1 s1 b = (RVal vb, e2, s2) ->
   compare_op op DEPTH s2 va vb = RVal (VBool false) ->
-  eval (S f) cenv e s (ECmp a ((op, b) :: rest)) = (RVal (VBool false), e2, s2).
+  eval (S f) cenv yt e s (ECmp a ((op, b) :: rest)) = (RVal (VBool false), e2, s2).
 Proof. intros. cbn [eval]. rewrite H. rewrite H0. rewrite H1. reflexivity. Qed.
 
 (* the missing else branch yields null *)
-Lemma if_without_else_is_null : forall f cenv e s c b v e1 s1,
-  eval f cenv e s c = (RVal v, e1, s1) -> truthy v = false ->
-  eval (S f) cenv e s (EIf [(c, b)] None) = (RVal VNull, e1, s1).
+Lemma if_without_else_is_null : forall f cenv yt e s c b v e1 s1,
+  eval f cenv yt e s c = (RVal v, e1, s1) -> truthy v = false ->
+  eval (S f) cenv yt e s (EIf [(c, b)] None) = (RVal VNull, e1, s1).
 Proof. intros. cbn [eval]. rewrite H, H0. reflexivity. Qed.
 
 (* ------------------------------------------------------------------ C03 *)
@@ -127,45 +127,45 @@ Lemma map_pattern_on_non_map_is_no_match : forall f s keys v e,
   (match v with VMap _ => False | _ => True end) -> match_pat (S f) s (PMap keys) v e = MNo.
 Proof. intros f s keys v e H. destruct v; cbn in H |- *; try reflexivity; contradiction. Qed.
 
-Lemma match_without_arms_is_null : forall f cenv e s subj v e1 s1,
-  eval f cenv e s subj = (RVal v, e1, s1) ->
-  eval (S f) cenv e s (EMatch [subj] [] None) = (RVal VNull, e1, s1).
+Lemma match_without_arms_is_null : forall f cenv yt e s subj v e1 s1,
+  eval f cenv yt e s subj = (RVal v, e1, s1) ->
+  eval (S f) cenv yt e s (EMatch [subj] [] None) = (RVal VNull, e1, s1).
 Proof. intros. cbn [eval]. rewrite H. reflexivity. Qed.
 
 (* ------------------------------------------------------------------ C04 *)
-Lemma finally_provides_value : forall f cenv e s body fb v e1 s1 w e2 s2,
-  eval f cenv e s body = (RVal v, e1, s1) ->
-  eval f cenv e1 s1 fb = (RVal w, e2, s2) ->
-  eval (S f) cenv e s (ETry body [] (Some fb)) = (RVal w, e2, s2).
+Lemma finally_provides_value : forall f cenv yt e s body fb v e1 s1 w e2 s2,
+  eval f cenv yt e s body = (RVal v, e1, s1) ->
+  eval f cenv yt e1 s1 fb = (RVal w, e2, s2) ->
+  eval (S f) cenv yt e s (ETry body [] (Some fb)) = (RVal w, e2, s2).
 Proof. intros. cbn [eval]. rewrite H. rewrite H0. reflexivity. Qed.
 
-Lemma finally_runs_on_uncaught_throw : forall f cenv e s body fb v e1 s1 w e2 s2,
-  eval f cenv e s body = (RThrow v, e1, s1) ->
-  eval f cenv e1 s1 fb = (RVal w, e2, s2) ->
-  eval (S f) cenv e s (ETry body [] (Some fb)) = (RThrow v, e2, s2).
+Lemma finally_runs_on_uncaught_throw : forall f cenv yt e s body fb v e1 s1 w e2 s2,
+  eval f cenv yt e s body = (RThrow v, e1, s1) ->
+  eval f cenv yt e1 s1 fb = (RVal w, e2, s2) ->
+  eval (S f) cenv yt e s (ETry body [] (Some fb)) = (RThrow v, e2, s2).
 Proof. intros. cbn [eval]. rewrite H. rewrite H0. reflexivity. Qed.
 
-Lemma finally_runs_on_return : forall f cenv e s body cs fb v e1 s1 w e2 s2,
-  eval f cenv e s body = (RRet v, e1, s1) ->
-  eval f cenv e1 s1 fb = (RVal w, e2, s2) ->
-  eval (S f) cenv e s (ETry body cs (Some fb)) = (RRet v, e2, s2).
+Lemma finally_runs_on_return : forall f cenv yt e s body cs fb v e1 s1 w e2 s2,
+  eval f cenv yt e s body = (RRet v, e1, s1) ->
+  eval f cenv yt e1 s1 fb = (RVal w, e2, s2) ->
+  eval (S f) cenv yt e s (ETry body cs (Some fb)) = (RRet v, e2, s2).
 Proof. intros. cbn [eval]. rewrite H. rewrite H0. reflexivity. Qed.
 
-Lemma catch_receives_thrown_value : forall f cenv e s body y cb v e1 s1,
-  eval f cenv e s body = (RThrow v, e1, s1) ->
-  eval (S f) cenv e s (ETry body [(Some y, None, cb)] None) = eval f cenv (update y v e1) s1 cb.
+Lemma catch_receives_thrown_value : forall f cenv yt e s body y cb v e1 s1,
+  eval f cenv yt e s body = (RThrow v, e1, s1) ->
+  eval (S f) cenv yt e s (ETry body [(Some y, None, cb)] None) = eval f cenv yt (update y v e1) s1 cb.
 Proof. intros. cbn [eval]. rewrite H. reflexivity. Qed.
 
-Lemma typed_catch_falls_through : forall f cenv e s body h cb1 cb2 v e1 s1,
-  eval f cenv e s body = (RThrow v, e1, s1) -> hint_ok h v = false ->
-  eval (S f) cenv e s (ETry body [(None, Some h, cb1); (None, None, cb2)] None) = eval f cenv e1 s1 cb2.
+Lemma typed_catch_falls_through : forall f cenv yt e s body h cb1 cb2 v e1 s1,
+  eval f cenv yt e s body = (RThrow v, e1, s1) -> hint_ok h v = false ->
+  eval (S f) cenv yt e s (ETry body [(None, Some h, cb1); (None, None, cb2)] None) = eval f cenv yt e1 s1 cb2.
 Proof. intros. cbn [eval]. rewrite H. rewrite H0. reflexivity. Qed.
 
-Lemma error_in_catch_still_runs_finally : forall f cenv e s body cb fb v e1 s1 v2 e2 s2 w e3 s3,
-  eval f cenv e s body = (RThrow v, e1, s1) ->
-  eval f cenv e1 s1 cb = (RThrow v2, e2, s2) ->
-  eval f cenv e2 s2 fb = (RVal w, e3, s3) ->
-  eval (S f) cenv e s (ETry body [(None, None, cb)] (Some fb)) = (RThrow v2, e3, s3).
+Lemma error_in_catch_still_runs_finally : forall f cenv yt e s body cb fb v e1 s1 v2 e2 s2 w e3 s3,
+  eval f cenv yt e s body = (RThrow v, e1, s1) ->
+  eval f cenv yt e1 s1 cb = (RThrow v2, e2, s2) ->
+  eval f cenv yt e2 s2 fb = (RVal w, e3, s3) ->
+  eval (S f) cenv yt e s (ETry body [(None, None, cb)] (Some fb)) = (RThrow v2, e3, s3).
 Proof. intros. cbn [eval]. rewrite H. rewrite H0. rewrite H1. reflexivity. Qed.
 
 
